@@ -1,4 +1,165 @@
+/-
+C02 — property theorems (statements fixed by the architect; do not weaken).
+Helper lemmas: PeroVerif/Lemmas/CtcMass.lean (path-sum recursions) and PeroVerif/Lemmas/PrefixBeam.lean.
+-/
+import Mathlib.Algebra.Order.Ring.Defs
 import PeroVerif.Model.PrefixBeam
+import PeroVerif.Spec.CtcMass
+import PeroVerif.Lemmas.Ctc
+import PeroVerif.Lemmas.CtcMass
+import PeroVerif.Lemmas.PrefixBeam
+
+set_option linter.unusedSectionVars false
+
 namespace C02
-theorem placeholder : (1:Nat) = 1 := rfl
+open Ctc PB
+
+variable {R : Type} [CommSemiring R] [LinearOrder R] [IsStrictOrderedRing R]
+variable {H : Type}
+
+/-- An admissible beam cut (covers `np.argpartition`'s arbitrary tie-breaking): a sub-multiset of the
+candidates of the requested size such that nothing left out is strictly better than something kept. -/
+def IsCut (key : Entry H R → R) (choose : ℕ → List (Entry H R) → List (Entry H R)) : Prop :=
+  ∀ k l, (choose k l).Subperm l ∧ (choose k l).length = min k l.length ∧
+    ∀ a ∈ choose k l, ∀ b ∈ l, b ∉ choose k l → ¬ key a < key b
+
+/-- Well-formed input: `C ≥ 1` columns (blank = `C-1`) in every row, non-negative entries. -/
+def WFM (C : ℕ) (M : List (List R)) : Prop :=
+  0 < C ∧ ∀ row ∈ M, row.length = C ∧ ∀ x ∈ row, 0 ≤ x
+
+/-- The beam after the frames of `M` (no normalisation check). -/
+def beamOf (lm : LM H R) (sel : R → Bool) (k : ℕ) (choose : ℕ → List (Entry H R) → List (Entry H R))
+    (h0 : H) (M : List (List R)) : List (Entry H R) :=
+  M.foldl (step (Ops.of R) lm sel k choose) (init (Ops.of R) h0)
+
+/-- The executable cut used by the driver is admissible. -/
+theorem topK_isCut (key : Entry H R → R) : IsCut key (topK (Ops.of R) key) :=
+  PB.topK_isCut key
+
+/-- Pairwise distinct transcripts, for every matrix, beam width, selector and admissible cut. -/
+theorem beam_nodup (lm : LM H R) (sel : R → Bool) (k : ℕ) (key : Entry H R → R)
+    (choose : ℕ → List (Entry H R) → List (Entry H R)) (hc : IsCut key choose) (h0 : H)
+    (M : List (List R)) :
+    ((beamOf lm sel k choose h0 M).map (·.pre)).Nodup :=
+  (PB.foldl_step_OK lm sel k key choose hc M _ (PB.init_OK h0)).1
+
+/-- Never over-counts: blank-ending / non-blank-ending partial scores are bounded by the corresponding
+true path sums, hence the visual score never exceeds the true CTC probability. -/
+theorem beam_le_mass (C : ℕ) (lm : LM H R) (sel : R → Bool) (k : ℕ) (key : Entry H R → R)
+    (choose : ℕ → List (Entry H R) → List (Entry H R)) (hc : IsCut key choose) (h0 : H)
+    (M : List (List R)) (hM : WFM C M) :
+    ∀ e ∈ beamOf lm sel k choose h0 M,
+      0 ≤ e.pb ∧ 0 ≤ e.pnb ∧
+      e.pb ≤ massB C (C - 1) M e.pre ∧ e.pnb ≤ massNB C (C - 1) M e.pre ∧
+      score (Ops.of R) e ≤ mass C (C - 1) M e.pre := by
+  intro e he
+  obtain ⟨h1, h2, h3, h4⟩ := PB.foldl_bd C lm sel k key choose hc h0 M hM e he
+  refine ⟨h1, h2, h3, h4, ?_⟩
+  rw [mass_eq_add]
+  exact add_le_add h3 h4
+
+/-- Neither the beam nor the pre-selection prunes anything along the run on `M`. -/
+def NoPrune (lm : LM H R) (sel : R → Bool) (k : ℕ) (choose : ℕ → List (Entry H R) → List (Entry H R))
+    (h0 : H) (M : List (List R)) : Prop :=
+  (∀ p : R, 0 < p → sel p = true) ∧
+  ∀ M' row rest, M = M' ++ row :: rest →
+    ((candidates (Ops.of R) lm (selected (Ops.of R) sel row) (beamOf lm sel k choose h0 M') row).filter
+      fun c => (Ops.of R).lt 0 (score (Ops.of R) c)).length ≤ k
+
+/-- Exact and complete when unpruned. -/
+theorem unpruned_exact (C : ℕ) (lm : LM H R) (sel : R → Bool) (k : ℕ) (key : Entry H R → R)
+    (choose : ℕ → List (Entry H R) → List (Entry H R)) (hc : IsCut key choose) (h0 : H)
+    (M : List (List R)) (hM : WFM C M) (hn : NoPrune lm sel k choose h0 M) :
+    (∀ e ∈ beamOf lm sel k choose h0 M,
+        e.pb = massB C (C - 1) M e.pre ∧ e.pnb = massNB C (C - 1) M e.pre ∧
+        score (Ops.of R) e = mass C (C - 1) M e.pre) ∧
+    (∀ ℓ : List ℕ, 0 < mass C (C - 1) M ℓ → ∃ e ∈ beamOf lm sel k choose h0 M, e.pre = ℓ) := by
+  obtain ⟨h1, h2⟩ := PB.foldl_exact C lm k key choose hc h0 M hM hn.1 hn.2
+  refine ⟨fun e he => ?_, fun ℓ hℓ => ?_⟩
+  · obtain ⟨h3, h4⟩ := h1 e he
+    refine ⟨h3, h4, ?_⟩
+    rw [mass_eq_add, ← h3, ← h4]
+    rfl
+  · rw [mass_eq_add] at hℓ
+    exact h2 ℓ hℓ
+
+/-- Raw (ungrouped) contributions of one frame of textbook prefix beam search: every beam entry
+contributes its stay and one extension per selected symbol; no joining. -/
+def rawContrib (sel : R → Bool) (beam : List (Entry H R)) (row : List R) : List (List ℕ × R × R) :=
+  let o := Ops.of R
+  let S := selected o sel row
+  beam.flatMap fun e =>
+    (S.map fun c => (e.pre ++ [c], (0 : R), ext o row e c)) ++
+    [(e.pre, stayPb o row e, e.pnb * (if S.contains e.last then rowAt o row e.last else 0))]
+
+/-- Beam invariant needed for joining to be grouping: distinct prefixes, `last` is the last symbol. -/
+def BeamOK (beam : List (Entry H R)) : Prop :=
+  (beam.map (·.pre)).Nodup ∧ ∀ e ∈ beam, e.pre ≠ [] → e.pre.getLast? = some e.last
+
+theorem beamOf_ok (lm : LM H R) (sel : R → Bool) (k : ℕ) (key : Entry H R → R)
+    (choose : ℕ → List (Entry H R) → List (Entry H R)) (hc : IsCut key choose) (h0 : H)
+    (M : List (List R)) : BeamOK (beamOf lm sel k choose h0 M) :=
+  PB.foldl_step_OK lm sel k key choose hc M _ (PB.init_OK h0)
+
+set_option linter.unusedVariables false in
+/-- Joining implements grouping: for every prefix, the candidates carry exactly the summed raw
+contributions for that prefix, and candidates with a positive score have pairwise distinct prefixes —
+so one step is "group all contributions by prefix in a map, keep a top-k of the positive ones". -/
+theorem joining_is_grouping (lm : LM H R) (sel : R → Bool) (beam : List (Entry H R)) (row : List R)
+    (hb : BeamOK beam) (hnn : ∀ e ∈ beam, 0 ≤ e.pb ∧ 0 ≤ e.pnb) (hrow : ∀ x ∈ row, 0 ≤ x)
+    (hS : (selected (Ops.of R) sel row) ≠ []) :
+    let o := Ops.of R
+    let cands := candidates o lm (selected o sel row) beam row
+    (∀ ℓ : List ℕ,
+      ((cands.filter fun c => c.pre = ℓ).map (·.pb)).sum =
+        (((rawContrib sel beam row).filter fun x => x.1 = ℓ).map (·.2.1)).sum ∧
+      ((cands.filter fun c => c.pre = ℓ).map (·.pnb)).sum =
+        (((rawContrib sel beam row).filter fun x => x.1 = ℓ).map (·.2.2)).sum) ∧
+    (((cands.filter fun c => o.lt 0 (score o c)).map (·.pre)).Nodup) := by
+  intro o cands
+  exact ⟨fun ℓ => PB.joining_sums lm _ (PB.nodup_selected _ sel row) hb row ℓ,
+    PB.pos_pre_nodup lm _ (PB.nodup_selected _ sel row) beam row hb⟩
+
+/-- One frame keeps an admissible top-k of the positive candidates (or, if no symbol is selected,
+just moves all mass to the blank-ending score). -/
+theorem step_is_cut (lm : LM H R) (sel : R → Bool) (k : ℕ) (key : Entry H R → R)
+    (choose : ℕ → List (Entry H R) → List (Entry H R)) (hc : IsCut key choose)
+    (beam : List (Entry H R)) (row : List R) (hS : (selected (Ops.of R) sel row) ≠ []) :
+    let o := Ops.of R
+    let pos := (candidates o lm (selected o sel row) beam row).filter fun c => o.lt 0 (score o c)
+    let out := step o lm sel k choose beam row
+    out.Subperm pos ∧ out.length = min k pos.length ∧
+      ∀ a ∈ out, ∀ b ∈ pos, b ∉ out → ¬ key a < key b :=
+  PB.step_is_cut lm sel k key choose hc beam row hS
+
+/-- A row keeps the search alive if the blank or some selected symbol has positive probability
+(true for every row-normalised row with fewer than e^10 symbols under the default selector). -/
+def RowAlive (sel : R → Bool) (row : List R) : Prop :=
+  0 < blankP (Ops.of R) row ∨ ∃ c ∈ selected (Ops.of R) sel row, 0 < rowAt (Ops.of R) row c
+
+/-- The beam never dies: it is never empty and every entry has a positive score, so the cut size
+`min k #positive` is at least 1 and decoding never fails. -/
+theorem beam_alive (C : ℕ) (lm : LM H R) (sel : R → Bool) (k : ℕ) (hk : 1 ≤ k) (key : Entry H R → R)
+    (choose : ℕ → List (Entry H R) → List (Entry H R)) (hc : IsCut key choose) (h0 : H)
+    (M : List (List R)) (hM : WFM C M) (ha : ∀ row ∈ M, RowAlive sel row) :
+    beamOf lm sel k choose h0 M ≠ [] ∧
+    ∀ e ∈ beamOf lm sel k choose h0 M, 0 < score (Ops.of R) e :=
+  PB.foldl_alive C lm sel k hk key choose hc h0 M hM ha
+
+/-- Unnormalised input is rejected rather than decoded. -/
+theorem reject_unnormalised (lm : LM H R) (sel : R → Bool) (k : ℕ)
+    (choose : ℕ → List (Entry H R) → List (Entry H R)) (tol : R) (h0 : H) (modelEos : Bool)
+    (M : List (List R)) (row : List R) (hrow : row ∈ M)
+    (hdev : 1 + tol < row.sum ∨ row.sum + tol < 1) :
+    ∃ e, decode (Ops.of R) lm sel k choose tol h0 modelEos M = .error e :=
+  PB.reject_unnormalised lm sel k choose tol h0 modelEos M row hrow hdev
+
+/-- ... and normalised input is decoded: the result is the finished beam. -/
+theorem accept_normalised (lm : LM H R) (sel : R → Bool) (k : ℕ)
+    (choose : ℕ → List (Entry H R) → List (Entry H R)) (tol : R) (h0 : H) (modelEos : Bool)
+    (M : List (List R)) (hn : ∀ row ∈ M, ¬ (1 + tol < row.sum) ∧ ¬ (row.sum + tol < 1)) :
+    decode (Ops.of R) lm sel k choose tol h0 modelEos M =
+      .ok (finish (Ops.of R) lm modelEos (beamOf lm sel k choose h0 M)) :=
+  PB.accept_normalised lm sel k choose tol h0 modelEos M hn
+
 end C02
